@@ -198,6 +198,24 @@ def hashKeyTy : Ty → Option Ty
   | .key => some .keyHash
   | _ => none
 
+def addressTy : Ty → Option Ty
+  | .contract _ => some .address
+  | _ => none
+
+def implicitAccountTy : Ty → Option Ty
+  | .keyHash => some (.contract .unit)
+  | _ => none
+
+def contractTy (t : Ty) : Ty → Option Ty
+  | .address => some (.option (.contract t))
+  | _ => none
+
+def setDelegateTy : Ty → Option Ty
+  | .option .keyHash => some .operation
+  | _ => none
+
+def emitTy (t : Ty) (a : Ty) : Option Ty := if a = t then some .operation else none
+
 /-- extension 2, the rules of the form `i :: a : S ⇒ r : S`: result type for the operand type -/
 def unTy (i : Instr) (a : Ty) : Option Ty :=
   match i with
@@ -205,11 +223,24 @@ def unTy (i : Instr) (a : Ty) : Option Ty :=
   | .BYTES => bytesTy a
   | .VOTING_POWER => votingPowerTy a
   | .HASH_KEY => hashKeyTy a
+  | .ADDRESS => addressTy a
+  | .IMPLICIT_ACCOUNT => implicitAccountTy a
+  | .CONTRACT t _ => contractTy t a
+  | .SET_DELEGATE => setDelegateTy a
+  | .EMIT _ t => emitTy t a
   | _ => none
+
+/-- TRANSFER_TOKENS: `p : mutez : contract p : S ⇒ operation : S` -/
+def transferTokensTy : Ty → Ty → Ty → Option Ty
+  | p, .mutez, .contract t => if p = t then some .operation else none
+  | _, _, _ => none
 
 /-- the rules of extension 2 -/
 def stepExt : Instr → List Ty → Option TRes
   | .NEVER, .never :: _ => some .failed      -- `NEVER :: never : A ⇒ B` for every `B`: like FAILWITH, nothing follows
+  | .SELF _ t, s => some (.ok (.contract t :: s))      -- `t`: the type of that entrypoint of the contract's parameter
+  | .TRANSFER_TOKENS, a :: b :: c :: s => (transferTokensTy a b c).map fun t => .ok (t :: s)
+  | .TRANSFER_TOKENS, _ => none
   | i, a :: s => (unTy i a).map fun t => .ok (t :: s)
   | _, [] => none
 
@@ -377,6 +408,10 @@ mutual
     | .atom .chainId _, .chainId => true
     | .atom .keyHash _, .keyHash => true
     | .atom .key _, .key => true
+    | .contract t' _, .contract t => t' = t
+    | .opTransfer _ _ _ _ p pty, .operation => checkVal strictMap p pty
+    | .opDelegate _ _, .operation => true
+    | .opEmit _ _ t p, .operation => checkVal strictMap p t
     | .pair a b, .pair ta tb => checkVal strictMap a ta && checkVal strictMap b tb
     | .some v, .option t => checkVal strictMap v t
     | .none t', .option t => t' = t
